@@ -269,7 +269,7 @@ def run(ctx):
     for (origin, layout, st) in cases:
         key = (layout, tuple(sorted((t, tuple(v)) for t, v in st["tab"].items())), st["ev"].get("ret", "ok"))
         uniq.setdefault(key, (origin, layout, st))
-    cases = list(uniq.values())
+    cases = [uniq[k] for k in sorted(uniq, key=repr)]           # the dump order depends on TLC's worker threads
     rnames = sorted(rend)
     lines, exps, index = [], [], []
     for ci, (origin, layout, st) in enumerate(cases):
